@@ -278,7 +278,7 @@ def oracleWrite (st : CaseSt) (g : Spec.Loc.Game) (lang : Spec.Loc.Language) (im
     (path : Bytes) (b : Bytes) (localized : Bool) : String × List (Spec.Overlay.Path × Bool × Bytes) :=
   let z := Spec.Overlay.hasCompressedSuffix g path
   match target g lang path localized with
-  | .skip => ("ok skip", st.written)
+  | .skip => ("ok skip", [])       -- out-of-domain write: forget what was written (it may have been replaced)
   | .mustErr =>
     if !isErr im.out then ("FAIL write with an unsupported language / degenerate path must be an error", st.written)
     else if !sameWalks st.walks im.walks then ("FAIL a rejected write changed the layers", st.written)
